@@ -212,6 +212,7 @@ func cloneAE(a *raft.AppendEntriesRequest) *raft.AppendEntriesRequest {
 type callResult struct {
 	resp any
 	err  error
+	m    *Msg // the delivery (original or duplicate copy) that produced this result
 }
 
 var (
@@ -271,10 +272,18 @@ func (t *SimTransport) call(kind string, target raft.ServerAddress, req any, sna
 	}
 	for k := 0; k < deliveries; k++ {
 		lat := n.latency()
+		mk := m
 		if k == 1 {
+			// the duplicate is a delivery of its own: it is handed over, handled and answered
+			// separately, so it gets its own record (same request, same send instant)
 			lat += n.latency()
+			n.nextID++
+			c := *m
+			c.ID, c.Fate = n.nextID, "duplicate-copy"
+			mk = &c
+			n.msgs = append(n.msgs, mk)
 		}
-		simrt.GoTag("deliver", "", func() { n.deliver(m, lat, timeout, resCh) })
+		simrt.GoTag("deliver", "", func() { n.deliver(mk, lat, timeout, resCh) })
 	}
 	if deliveries == 0 && w.ch.Choose(simrt.SNet, 2) == 0 {
 		// connection refused: fail fast
@@ -287,6 +296,9 @@ func (t *SimTransport) call(kind string, target raft.ServerAddress, req any, sna
 	case 0:
 		t.inc.checkAlive()
 		res := simrt.Got(&sel, (<-chan callResult)(resCh))
+		if res.m != nil {
+			m = res.m
+		}
 		m.RespSeq = w.sim.Tick()
 		if res.err != nil {
 			return nil, res.err
@@ -324,11 +336,8 @@ func (n *Net) deliver(m *Msg, lat, timeout time.Duration, resCh chan callResult)
 		}
 		rpc.Reader = bytes.NewReader(body)
 	}
-	first := m.DelivSeq == 0
-	if first {
-		m.DelivSeq = w.sim.Tick()
-		m.DstInc = inc.n
-	}
+	m.DelivSeq = w.sim.Tick()
+	m.DstInc = inc.n
 	w.or.onDeliver(inc, m)
 	if m.Kind == "HB" && w.cfg.HeartbeatFastPath && inc.trans.hb != nil {
 		// fast path: the handler runs on the connection's goroutine, concurrently with
@@ -349,14 +358,12 @@ func (n *Net) deliver(m *Msg, lat, timeout time.Duration, resCh chan callResult)
 	if !inc.alive {
 		return
 	}
-	if first {
-		m.HandSeq = w.sim.Tick()
-		m.Resp = cloneResp(rr.Response)
-		if rr.Error != nil {
-			m.RespErr = rr.Error.Error()
-		}
-		w.or.onHandled(inc, m)
+	m.HandSeq = w.sim.Tick()
+	m.Resp = cloneResp(rr.Response)
+	if rr.Error != nil {
+		m.RespErr = rr.Error.Error()
 	}
+	w.or.onHandled(inc, m)
 	if n.respDropPct > 0 && w.ch.Chance(simrt.SNet, n.respDropPct, 1000) {
 		w.stats.fault("response_drop")
 		return
@@ -366,7 +373,7 @@ func (n *Net) deliver(m *Msg, lat, timeout time.Duration, resCh chan callResult)
 		w.stats.fault("msg_blocked_by_partition")
 		return
 	}
-	var res callResult
+	res := callResult{m: m}
 	if rr.Error != nil {
 		res.err = fmt.Errorf("remote error: %s", rr.Error.Error())
 	} else {
